@@ -616,4 +616,130 @@ theorem advanceSeq_invariant (fd : Nat) (ns : List Nat) (s : St) (c : Conn) (hc 
   rw [advSeq_eq_advQ ns c.out c.outOff hok hle] at h
   exact h
 
+/-! ## ties to the procedures of the model -/
+
+/-- `read_answers` on a TCP connection: the next message handed to `process_answer` is `nextTcpFrame` of the peer's
+    stream, the bytes read and the bytes still buffered; it is taken out of in_buf (`2 + len` bytes) before the call,
+    and the loop continues — i.e. `read_answers` computes `drain` -/
+theorem bodyReadAnswers_tcp (go : Call → St → St × Ret) (fd : Nat) (s : St) (c : Conn) (v : VSock)
+    (hc : s.conn? fd = some c) (hv : s.sock? fd = some v) (ht : c.tcp = true) :
+    bodyReadAnswers go fd s =
+      match nextTcpFrame v.stream v.spos c.inBytes with
+      | none => go .flushRequeue s
+      | some r =>
+        let s := s.modConn fd fun c =>
+          { c with inMsgs := c.inMsgs.drop 1, inBytes := c.inBytes - (2 + r.len) }
+        let (s, st) := go (.processAnswer fd r) s
+        match s.conn? fd with
+        | none => go .flushRequeue s
+        | some c' =>
+          if c'.unlinked then go .flushRequeue s else
+          if st != .ok then
+            let (s, _) := go (.connError fd true st) s
+            go .flushRequeue s
+          else go (.readAnswers fd) s := by
+  unfold bodyReadAnswers
+  simp only [hc, hv, ht, Bool.not_true, Bool.false_eq_true, ↓reduceIte]
+  rfl
+
+/-- `read_answers` on a UDP connection: datagrams are handed over whole, in arrival order -/
+theorem bodyReadAnswers_udp (go : Call → St → St × Ret) (fd : Nat) (s : St) (c : Conn) (v : VSock)
+    (hc : s.conn? fd = some c) (hv : s.sock? fd = some v) (ht : c.tcp = false) :
+    bodyReadAnswers go fd s =
+      match c.inMsgs.head?.map (·.2) with
+      | none => go .flushRequeue s
+      | some r =>
+        let s := s.modConn fd fun c =>
+          { c with inMsgs := c.inMsgs.drop 1, inBytes := c.inBytes - (2 + r.len) }
+        let (s, st) := go (.processAnswer fd r) s
+        match s.conn? fd with
+        | none => go .flushRequeue s
+        | some c' =>
+          if c'.unlinked then go .flushRequeue s else
+          if st != .ok then
+            let (s, _) := go (.connError fd true st) s
+            go .flushRequeue s
+          else go (.readAnswers fd) s := by
+  unfold bodyReadAnswers
+  simp only [hc, hv, ht, Bool.not_false, ↓reduceIte]
+  rfl
+
+/-- `read_conn_packets` on a TCP connection with data available: one `recv` of `n` bytes (`n` = the scripted chunk size,
+    capped by what is available) moves the read position and in_buf by `n`, then `read_answers` runs -/
+theorem bodyProcessRead_tcp_chunk (go : Call → St → St × Ret) (fd : Nat) (s : St) (c : Conn) (v : VSock)
+    (hc : s.conn? fd = some c) (hv : s.sock? fd = some v) (hul : c.unlinked = false) (ht : c.tcp = true)
+    (hf : (s.fault "recvfrom").1 = none) (hav : v.slen - v.spos ≠ 0)
+    (n : Nat) (chunks : List Nat)
+    (hn : (n, chunks) = match v.chunks with
+      | [] => (v.slen - v.spos, [])
+      | k :: r => (min k (v.slen - v.spos), r))
+    (hnz : ∀ k r, v.chunks = k :: r → k ≠ 0) :
+    bodyProcessRead go fd s = go (.readAnswers fd)
+      ((((s.fault "recvfrom").2.slog fd "recv").modSock fd fun v => { v with chunks := chunks, spos := v.spos + n }).modConn fd
+        fun c => { c with inBytes := c.inBytes + n, connected := true }) := by
+  unfold bodyProcessRead
+  simp only [hc, hv, hul, ht, Bool.false_eq_true, ↓reduceIte, Bool.not_true]
+  split <;> pair_subst
+  · rename_i e hfe; rw [hf] at hfe; cases hfe
+  · have hav' : (v.slen - v.spos == 0) = false := by simpa using hav
+    simp only [hav', Bool.false_eq_true, ↓reduceIte]
+    cases hch : v.chunks with
+    | nil =>
+      rw [hch] at hn
+      simp only [Prod.mk.injEq] at hn
+      obtain ⟨rfl, rfl⟩ := hn
+      rfl
+    | cons k r =>
+      have hk : (k == 0) = false := by simpa using hnz k r hch
+      rw [hch] at hn
+      simp only [Prod.mk.injEq] at hn
+      obtain ⟨h1, h2⟩ := hn
+      simp only [hk, Bool.false_eq_true, ↓reduceIte, h1, h2]
+
+theorem conn?_notify (s : St) (fd : Nat) (r w : Bool) :
+    (s.notify fd r w).conn? fd = (s.conn? fd).map fun c => { c with notR := r, notW := w } := by
+  unfold St.notify
+  cases hc : s.conn? fd with
+  | none => simp [hc]
+  | some c =>
+    simp only [Option.map_some]
+    split <;> exact conn?_modConn_self _ (by simpa [St.conn?, St.emit] using hc) rfl
+
+theorem txs_notify (s : St) (fd : Nat) (r w : Bool) : (s.notify fd r w).txs = s.txs := St.notify_txs s fd r w
+
+/-- **`ares_conn_flush` on a connected TCP connection whose socket accepts `n` bytes** reports to the server exactly
+    the frames `advQ` completes and leaves `advQ`'s queue: partial writes never duplicate, drop or reorder frames -/
+theorem bodyFlush_tcp_accept (go : Call → St → St × Ret) (fd : Nat) (s : St) (c : Conn) (n : Nat)
+    (hc : s.conn? fd = some c) (hout : c.out ≠ []) (ht : c.tcp = true) (hcon : c.connected = true)
+    (hf : (s.fault "sendto").1 = none)
+    (hacc : (tcpAccept (((s.fault "sendto").2.sock? fd).getD default) (outBytes c)).1 = some n) :
+    (bodyFlush go fd s).1.txs.map Tx.view = s.txs.map Tx.view ++ (advQ c.out c.outOff n).1.map (OutFrame.view fd) ∧
+      ((bodyFlush go fd s).1.conn? fd).map (fun c => (c.out, c.outOff)) = some (advQ c.out c.outOff n).2 := by
+  unfold bodyFlush
+  simp only [hc]
+  cases ho : c.out with
+  | nil => exact absurd ho hout
+  | cons f rest =>
+    simp only [ht, hcon, Bool.not_true, Bool.false_eq_true, ↓reduceIte]
+    split <;> pair_subst
+    · rename_i e hfe; rw [hf] at hfe; cases hfe
+    · split
+      · rename_i hnone; rw [hacc] at hnone; cases hnone
+      · rename_i n' hsome
+        rw [hacc] at hsome; cases hsome
+        -- the state handed to `advanceOut`
+        generalize hs2 : (if (n != outBytes c) = true then _ else _ : St) = s2
+        have hc2 : s2.conn? fd = some c := by
+          subst hs2; split <;> simpa [St.conn?, St.emit, St.slog, St.setSock, St.fault] using hc
+        have ht2 : s2.txs = s.txs := by
+          subst hs2; split <;> simp only [chan_frame]
+        have hsp := advanceOut_spec (c.out.length + 1) fd s2 n c hc2 (by omega)
+        rw [ho] at hsp
+        simp only [List.length_cons] at hsp ⊢
+        constructor
+        · simp only [chan_frame]
+          split <;> simp only [chan_frame, hsp.2, ht2]
+        · simp only [conn?_notify]
+          split <;> simp only [conn?_notify, hsp.1, Option.map_some, Option.map_map] <;> rfl
+
 end Cares.Chan
